@@ -103,6 +103,11 @@ def check_programs(tag, paths, srcs, wits, stats, per=6):
 
 
 ILL = [
+    ("element type of a vector never determined", "let qv = vec_new(); let qn = vec_len(qv);"),
+    ("undetermined type nested in a reference", "let qr = ref(vec_new()); let _ = qr;"),
+    ("undetermined type nested in a tuple component", "let qt = (1, vec_new()); let _ = qt.0;"),
+    ("undetermined type nested in an array", "let qa = [vec_new(), vec_new()]; let _ = qa;"),
+    ("undetermined parameter type of a closure", "let qf = |qx| qx; let _ = qf;"),
     ("argument of the wrong type", "let _ = int32_to_string(true);"),
     ("argument of the wrong type (string for int)", "let _ = pi(\"t\", \"x\");"),
     ("too many arguments", "let _ = int32_to_string(1, 2);"),
@@ -259,6 +264,9 @@ def check(run):
                     continue
                 u_srcs.append(UHEAD + "fn conv(x: %s) -> unit { let _ = %s; () }\nfn main() { () }\n" % (a, use))
                 u_why.append("`%s` on a value of type %s" % (use, a))
+        for amb in ("let x = Un; let _ = x;", "let p = (1, Un); let _ = p.0;", "let b = Ub { v: Un }; let _ = b;", "let v = vec_push(vec_new(), Un); let _ = vec_len(v);", "let r = ref(Un); let _ = r;", "let f = |q| Us(q); let _ = f;"):
+            u_srcs.append(UHEAD + "fn conv() -> unit { %s () }\nfn main() { () }\n" % amb)
+            u_why.append("a type argument that nothing determines: " + amb)
         uroot, upaths = semrun.write_programs("c03uni", u_srcs)
         ures = vlib.run_harness("compile", [{"path": p_, "timeout_ms": 20000} for p_ in upaths], shards=vlib.NCPU)
         for why, src, r in zip(u_why, u_srcs, ures):
@@ -324,7 +332,7 @@ def check(run):
             (r,) = vlib.run_harness("compile", [{"path": vlib.VERIF + "/" + k["replay"]["program"], "timeout_ms": 8000}])
             if r.get("ok"):
                 run.known_finding(k["id"], "%s: %s (%s is accepted)" % (k["id"], k["what"], k["replay"]["program"]))
-    run.add_cases(stats.get("programs", 0) + sum(ill_stats.values()), stats.get("consistent", 0), samples=[ILL[0][1], ILL[7][1]])
+    run.add_cases(stats.get("programs", 0) + sum(ill_stats.values()), stats.get("consistent", 0), samples=[ILL[5][1], ILL[12][1]])
     run.cov["rule"] = (
         "well-typed programs (generated: probes in every position, closures, refs, vectors, arrays, trait objects; generic programs; closure-capture programs; the corpus; three-package projects): the real Core, Mono, Lift and ANF trees are translated node for node "
         "(every node with the type the compiler put on it) and checked by the Coq function check_file: scope and binder type of every variable, instance matching for uses of top-level functions, let/if/while/match/call/tuple/projection/array/closure/operator/dyn typing, declared return types, "
